@@ -1,4 +1,5 @@
 import MorfuseModel.Dict.Model
+import MorfuseModel.Dict.Spec
 /-!
 # Invariant of the arrayset / StringDictionary model and its preservation
 
@@ -688,5 +689,479 @@ theorem addNewCore_inv {hash : κ → Nat} {s : State κ} {ks : List κ} {B : Na
         · rintro (⟨_, hb'⟩ | he)
           · exact absurd hb'.symm hbi
           · exact he
+
+/-! ### `rehash` -/
+
+theorem scanPrimes_found (tl : Nat) : ∀ (ps : List Nat) (i nl : Nat), (∃ p ∈ ps, tl < p) →
+    ∃ p i', scanPrimes tl ps i nl = (p, some i') ∧ tl < p
+  | [], _, _, h => by obtain ⟨p, hp, _⟩ := h; simp at hp
+  | q :: ps, i, nl, h => by
+    unfold scanPrimes
+    by_cases hq : q > tl
+    · exact ⟨q, i, by simp [hq], hq⟩
+    · rw [if_neg hq]
+      apply scanPrimes_found tl ps (i + 1) q
+      obtain ⟨p, hp, hlt⟩ := h
+      rcases List.mem_cons.1 hp with e | e
+      · subst e; exact absurd hlt hq
+      · exact ⟨p, e, hlt⟩
+
+theorem Inv.set_tli {hash : κ → Nat} {s : State κ} {ks : List κ} {B : Nat → List Nat}
+    (h : Inv hash s ks B) (i : Nat) : Inv hash { s with tableLengthIndex := i } ks B :=
+  ⟨h.count_eq, h.nodup, h.key_eq, h.idx_eq, h.rev_eq, h.tl_pos, h.thr, h.le, h.inl_tl, h.dflt,
+    h.chain, h.bnodup, h.mem⟩
+
+theorem rehash_count (hash : κ → Nat) (primes : List Nat) (s : State κ) :
+    (rehash hash primes s).count = s.count := by
+  unfold rehash
+  split
+  · rw [(resize_fields hash _ _).2.2.2.2.2.1]
+  · rw [(resize_fields hash _ _).2.2.2.2.2.1]
+
+theorem rehash_inv {hash : κ → Nat} {primes : List Nat} {s : State κ} {ks : List κ} {B : Nat → List Nat}
+    (h : Inv hash s ks B) (hge : s.tableLength ≤ (rehash hash primes s).tableLength) :
+    ∃ B', Inv hash (rehash hash primes s) ks B' := by
+  unfold rehash at hge ⊢
+  split at hge
+  · rename_i newLen i _
+    rw [(resize_fields hash _ _).2.2.2.1] at hge
+    exact resize_inv (h.set_tli i) hge
+  · rename_i newLen _
+    rw [(resize_fields hash _ _).2.2.2.1] at hge
+    exact resize_inv h hge
+
+theorem rehash_grows {hash : κ → Nat} {primes : List Nat} (s : State κ)
+    (hp : ∃ p ∈ primes, s.tableLength < p) : s.tableLength < (rehash hash primes s).tableLength := by
+  obtain ⟨p, i, he, hlt⟩ := scanPrimes_found s.tableLength primes 0 0 hp
+  unfold rehash
+  rw [he]
+  simp only
+  rw [(resize_fields hash _ _).2.2.2.1]
+  exact hlt
+
+/-! ### `Add`, `AllocateMoreString`, `InitConstStrings` -/
+
+theorem addNewKeyEntry_spec {hash : κ → Nat} {primes : List Nat} {s s' : State κ} {ks : List κ}
+    {B : Nat → List Nat} {t : κ} {e : Nat} (h : Inv hash s ks B) (hnk : t ∉ ks)
+    (ha : addNewKeyEntry hash primes s t (hash t % s.tableLength) = some (s', e)) :
+    (∃ B', Inv hash s' (ks ++ [t]) B') ∧ e = ks.length + 1 ∧ s.tableLength ≤ s'.tableLength := by
+  unfold addNewKeyEntry at ha
+  by_cases hthr : s.count ≥ s.threshold
+  · rw [if_pos hthr] at ha
+    simp only at ha
+    by_cases hguard : (rehash hash primes s).tableLength = 0 ∨
+        (rehash hash primes s).tableLength < (rehash hash primes s).count + 1
+    · rw [if_pos hguard] at ha; cases ha
+    · rw [if_neg hguard] at ha
+      have hcnt := rehash_count hash primes s
+      have hg : s.tableLength ≤ (rehash hash primes s).tableLength := by
+        have := h.thr; omega
+      obtain ⟨B1, h1⟩ := rehash_inv (primes := primes) h hg
+      have hlt : (rehash hash primes s).count < (rehash hash primes s).tableLength := by omega
+      obtain ⟨⟨B', hB'⟩, he, htl⟩ := addNewCore_inv h1 hnk hlt
+      simp only [Option.some.injEq] at ha
+      rw [ha] at hB' he htl
+      simp only at hB' he htl
+      exact ⟨⟨B', hB'⟩, by rw [he, hcnt, h.count_eq], by rw [htl]; exact hg⟩
+  · rw [if_neg hthr] at ha
+    have hlt : s.count < s.tableLength := by have := h.thr; omega
+    obtain ⟨⟨B', hB'⟩, he, htl⟩ := addNewCore_inv h hnk hlt
+    simp only [Option.some.injEq] at ha
+    rw [ha] at hB' he htl
+    simp only at hB' he htl
+    exact ⟨⟨B', hB'⟩, by rw [he, h.count_eq], by rw [htl]; exact Nat.le_refl _⟩
+
+/-- what `StringDictionary::Add` does, in terms of the ghost list of texts -/
+theorem add_spec {hash : κ → Nat} {primes : List Nat} {s s' : State κ} {ks : List κ} {B : Nat → List Nat}
+    {t : κ} {i : Nat} (h : Inv hash s ks B) (ha : add hash primes s t = some (s', i)) :
+    (t ∈ ks → s' = s ∧ keyAt ks i = some t) ∧
+    (t ∉ ks → (∃ B', Inv hash s' (ks ++ [t]) B') ∧ i = ks.length + 1 ∧ s.tableLength ≤ s'.tableLength) := by
+  have fk := findKeyEntry_spec h t
+  unfold findKeyEntry at fk
+  unfold add addKeyIndex addKeyEntry at ha
+  simp only at ha
+  by_cases hf : findLoop s t (s.count + 1) (tableGet s (hash t % s.tableLength)) ≠ 0
+  · rw [if_pos hf] at ha
+    simp only [Option.some.injEq, Prod.mk.injEq] at ha
+    obtain ⟨hs, hi⟩ := ha
+    subst hs
+    have hkt := fk.1 hf
+    have hr := keyAt_some_range hkt
+    have : s.idx.get (findLoop s t (s.count + 1) (tableGet s (hash t % s.tableLength))) =
+        findLoop s t (s.count + 1) (tableGet s (hash t % s.tableLength)) :=
+      h.idx_eq _ hr.1 (Nat.le_trans hr.2 (Nat.le_of_eq h.count_eq.symm))
+    rw [this] at hi
+    subst hi
+    exact ⟨fun _ => ⟨rfl, hkt⟩, fun hn => absurd (keyAt_mem hkt) hn⟩
+  · rw [if_neg hf] at ha
+    have hnk : t ∉ ks := fk.2 (by simpa using hf)
+    refine ⟨fun hm => absurd hm hnk, fun _ => ?_⟩
+    cases hr : addNewKeyEntry hash primes s t (hash t % s.tableLength) with
+    | none => rw [hr] at ha; cases ha
+    | some p =>
+      obtain ⟨s1, e⟩ := p
+      rw [hr] at ha
+      simp only [Option.some.injEq, Prod.mk.injEq] at ha
+      obtain ⟨hs, hi⟩ := ha
+      subst hs
+      obtain ⟨⟨B', hB'⟩, he, htl⟩ := addNewKeyEntry_spec h hnk hr
+      refine ⟨⟨B', hB'⟩, ?_, htl⟩
+      rw [← hi, he]
+      exact hB'.idx_eq _ (by omega) (by rw [hB'.count_eq]; simp)
+
+/-- `Add` is defined (no undefined behaviour) whenever the text is already interned, the table has
+    room, or `set_primes` still holds a larger length -/
+theorem add_defined {hash : κ → Nat} {primes : List Nat} {s : State κ} {ks : List κ} {B : Nat → List Nat}
+    (h : Inv hash s ks B) (t : κ)
+    (hp : t ∈ ks ∨ s.count < s.tableLength ∨ ∃ p ∈ primes, s.tableLength < p) :
+    ∃ r, add hash primes s t = some r := by
+  unfold add addKeyIndex addKeyEntry
+  simp only
+  by_cases hf : findLoop s t (s.count + 1) (tableGet s (hash t % s.tableLength)) ≠ 0
+  · rw [if_pos hf]; exact ⟨_, rfl⟩
+  · rw [if_neg hf]
+    have hnk : t ∉ ks := (findKeyEntry_spec h t).2 (by simpa [findKeyEntry] using hf)
+    unfold addNewKeyEntry
+    by_cases hthr : s.count ≥ s.threshold
+    · rw [if_pos hthr]
+      have hthr' : ¬ s.count < s.tableLength := by have := h.thr; omega
+      rcases hp with hp | hp | hp
+      · exact absurd hp hnk
+      · exact absurd hp hthr'
+      · have hg := rehash_grows (hash := hash) s hp
+        have hcnt := rehash_count hash primes s
+        have hle := h.le
+        simp only
+        rw [if_neg (by omega)]
+        exact ⟨_, rfl⟩
+    · rw [if_neg hthr]; exact ⟨_, rfl⟩
+
+theorem allocateMoreString_inv {hash : κ → Nat} {s : State κ} {ks : List κ} {B : Nat → List Nat}
+    (h : Inv hash s ks B) (n : Nat) :
+    (∃ B', Inv hash (allocateMoreString hash s n) ks B') ∧
+    s.count + n ≤ (allocateMoreString hash s n).tableLength ∧
+    s.tableLength ≤ (allocateMoreString hash s n).tableLength := by
+  unfold allocateMoreString
+  split
+  · rename_i hgt
+    refine ⟨resize_inv h (by omega), ?_, ?_⟩
+    · rw [(resize_fields hash _ _).2.2.2.1]; exact Nat.le_refl _
+    · rw [(resize_fields hash _ _).2.2.2.1]; omega
+  · exact ⟨⟨B, h⟩, by omega, Nat.le_refl _⟩
+
+/-! ### observations and refinement to `Spec` -/
+
+theorem keyAt_eq_spec (ks : List κ) (i : Nat) : keyAt ks i = Spec.textOf ks i := rfl
+
+theorem textOf_spec {hash : κ → Nat} {s : State κ} {ks : List κ} {B : Nat → List Nat}
+    (h : Inv hash s ks B) (i : Nat) : textOf s i = Spec.textOf ks i := by
+  rw [← keyAt_eq_spec]
+  unfold textOf
+  split
+  · rename_i hi
+    rw [h.rev_eq i hi.1 hi.2, h.key_eq]
+  · rename_i hi
+    by_cases h0 : i = 0
+    · subst h0; simp [keyAt]
+    · rw [keyAt_none_of_gt (by rw [← h.count_eq]; omega)]
+
+theorem spec_idOf_of_keyAt {ks : List κ} (hnd : ks.Nodup) {e : Nat} {t : κ} (h : keyAt ks e = some t) :
+    Spec.idOf ks t = e := by
+  have hr := keyAt_some_range h
+  unfold keyAt at h
+  rw [if_neg (by omega)] at h
+  obtain ⟨h1, h2⟩ := List.getElem?_eq_some_iff.1 h
+  unfold Spec.idOf
+  rw [if_pos (by rw [← h2]; exact List.getElem_mem h1)]
+  have := List.Nodup.idxOf_getElem hnd (e - 1) h1
+  rw [h2] at this
+  omega
+
+theorem keyAt_of_spec_idOf {ks : List κ} {t : κ} {i : Nat} (h : Spec.idOf ks t = i) (hi : i ≠ 0) :
+    keyAt ks i = some t := by
+  unfold Spec.idOf at h
+  split at h
+  · rename_i hm
+    have hlt := List.idxOf_lt_length_of_mem hm
+    subst h
+    simp only [keyAt, Nat.add_sub_cancel, if_neg (Nat.succ_ne_zero _)]
+    rw [List.getElem?_eq_getElem hlt, List.getElem_idxOf hlt]
+  · exact absurd h.symm hi
+
+theorem idOf_spec {hash : κ → Nat} {s : State κ} {ks : List κ} {B : Nat → List Nat}
+    (h : Inv hash s ks B) (t : κ) : idOf hash s t = Spec.idOf ks t := by
+  have fk := findKeyEntry_spec h t
+  unfold idOf findKeyIndex
+  simp only
+  by_cases hf : findKeyEntry hash s t ≠ 0
+  · rw [if_pos hf]
+    have hk := fk.1 hf
+    have hr := keyAt_some_range hk
+    rw [h.idx_eq _ hr.1 (by rw [h.count_eq]; exact hr.2)]
+    exact (spec_idOf_of_keyAt h.nodup hk).symm
+  · rw [if_neg hf]
+    have := fk.2 (by simpa using hf)
+    simp [Spec.idOf, this]
+
+theorem filterMap_range_take (l : List κ) : ∀ n, n ≤ l.length →
+    (List.range n).filterMap (fun i => l[i]?) = l.take n
+  | 0, _ => by simp
+  | n + 1, hn => by
+    rw [List.range_succ, List.filterMap_append, filterMap_range_take l n (by omega), List.take_add_one]
+    have : l[n]? = some l[n] := List.getElem?_eq_getElem (by omega)
+    simp [this]
+
+/-- the computed abstraction `texts s` is the ghost list -/
+theorem texts_eq {hash : κ → Nat} {s : State κ} {ks : List κ} {B : Nat → List Nat}
+    (h : Inv hash s ks B) : texts s = ks := by
+  unfold texts
+  have : (fun i => textOf s (i + 1)) = fun i => ks[i]? := by
+    funext i
+    rw [textOf_spec h]
+    simp [Spec.textOf]
+  rw [this, h.count_eq, filterMap_range_take ks ks.length (Nat.le_refl _), List.take_length]
+
+theorem spec_add_nodup {ks : List κ} (h : ks.Nodup) (t : κ) : (Spec.add ks t).Nodup := by
+  unfold Spec.add
+  split
+  · exact h
+  · rename_i hn
+    rw [List.nodup_append]
+    refine ⟨h, by simp, ?_⟩
+    intro a ha b hb
+    simp at hb; subst hb
+    exact fun e => hn (e ▸ ha)
+
+/-- `add` refines `Spec.add`; the id returned is the spec's id of the text afterwards -/
+theorem add_refines {hash : κ → Nat} {primes : List Nat} {s s' : State κ} {ks : List κ} {B : Nat → List Nat}
+    {t : κ} {i : Nat} (h : Inv hash s ks B) (ha : add hash primes s t = some (s', i)) :
+    (∃ B', Inv hash s' (Spec.add ks t) B') ∧ i = Spec.idOf (Spec.add ks t) t ∧
+    s.tableLength ≤ s'.tableLength ∧ (t ∈ ks → s' = s) := by
+  obtain ⟨a1, a2⟩ := add_spec h ha
+  by_cases hm : t ∈ ks
+  · obtain ⟨hs, hk⟩ := a1 hm
+    subst hs
+    have : Spec.add ks t = ks := by simp [Spec.add, hm]
+    rw [this]
+    exact ⟨⟨B, h⟩, (spec_idOf_of_keyAt h.nodup hk).symm, Nat.le_refl _, fun _ => rfl⟩
+  · obtain ⟨⟨B', hB'⟩, hi, htl⟩ := a2 hm
+    have : Spec.add ks t = ks ++ [t] := by simp [Spec.add, hm]
+    rw [this]
+    refine ⟨⟨B', hB'⟩, ?_, htl, fun h' => absurd h' hm⟩
+    rw [hi]
+    exact (spec_idOf_of_keyAt hB'.nodup keyAt_append_new).symm
+
+theorem addAll_refines {hash : κ → Nat} {primes : List Nat} : ∀ (ts : List κ) {s s' : State κ} {ks : List κ}
+    {B : Nat → List Nat}, Inv hash s ks B → addAll hash primes s ts = some s' →
+    ∃ B', Inv hash s' (ts.foldl Spec.add ks) B'
+  | [], s, s', ks, B, h, ha => by
+    simp only [addAll, Option.some.injEq] at ha
+    subst ha
+    exact ⟨B, h⟩
+  | t :: ts, s, s', ks, B, h, ha => by
+    unfold addAll at ha
+    cases hr : add hash primes s t with
+    | none => rw [hr] at ha; cases ha
+    | some p =>
+      obtain ⟨s1, i⟩ := p
+      rw [hr] at ha
+      simp only at ha
+      obtain ⟨⟨B1, h1⟩, _⟩ := add_refines h hr
+      exact addAll_refines ts h1 ha
+
+/-- every operation refines the specification (and keeps the invariant) -/
+theorem step_refines {hash : κ → Nat} {primes : List Nat} {P : List κ} {s s' : State κ} {ks : List κ}
+    {B : Nat → List Nat} {op : Op κ} (h : Inv hash s ks B) (hs : step hash primes P s op = some s') :
+    ∃ ks' B', Inv hash s' ks' B' ∧ Spec.step P ks op = some ks' := by
+  cases op with
+  | add t =>
+    simp only [step, Option.map_eq_some_iff] at hs
+    obtain ⟨⟨s1, i⟩, ha, hs1⟩ := hs
+    simp only at hs1
+    subst hs1
+    obtain ⟨⟨B', hB'⟩, _⟩ := add_refines h ha
+    exact ⟨_, B', hB', rfl⟩
+  | get t =>
+    simp only [step, Option.some.injEq] at hs
+    subst hs
+    exact ⟨ks, B, h, rfl⟩
+  | str i =>
+    simp only [step] at hs
+    split at hs
+    · rename_i hsome
+      simp only [Option.some.injEq] at hs
+      subst hs
+      refine ⟨ks, B, h, ?_⟩
+      rw [textOf_spec h] at hsome
+      simp [Spec.step, hsome]
+    · cases hs
+  | more n =>
+    simp only [step, Option.some.injEq] at hs
+    subst hs
+    obtain ⟨⟨B', hB'⟩, _⟩ := allocateMoreString_inv h n
+    exact ⟨ks, B', hB', rfl⟩
+  | reset =>
+    simp only [step, Option.some.injEq, clear] at hs
+    subst hs
+    exact ⟨[], _, init_inv hash, rfl⟩
+  | resetMaster =>
+    simp only [step, clear, initConstStrings] at hs
+    obtain ⟨⟨B1, h1⟩, _⟩ := allocateMoreString_inv (init_inv hash (κ := κ)) P.length
+    obtain ⟨B', hB'⟩ := addAll_refines P h1 hs
+    exact ⟨_, B', hB', rfl⟩
+
+theorem run_refines {hash : κ → Nat} {primes : List Nat} {P : List κ} : ∀ (ops : List (Op κ))
+    {s s' : State κ} {ks : List κ} {B : Nat → List Nat}, Inv hash s ks B →
+    run hash primes P s ops = some s' →
+    ∃ ks' B', Inv hash s' ks' B' ∧ Spec.run P ks ops = some ks'
+  | [], s, s', ks, B, h, hr => by
+    simp only [run, Option.some.injEq] at hr
+    subst hr
+    exact ⟨ks, B, h, rfl⟩
+  | op :: ops, s, s', ks, B, h, hr => by
+    simp only [run, Option.bind_eq_some_iff] at hr
+    obtain ⟨s1, hs1, hr1⟩ := hr
+    obtain ⟨ks1, B1, h1, hsp⟩ := step_refines h hs1
+    obtain ⟨ks', B', h', hsp'⟩ := run_refines ops h1 hr1
+    refine ⟨ks', B', h', ?_⟩
+    simp [Spec.run, hsp, hsp']
+
+theorem reachable_inv {hash : κ → Nat} {primes : List Nat} {P : List κ} {s : State κ}
+    (h : Reachable hash primes P s) : ∃ ks B, Inv hash s ks B := by
+  obtain ⟨ops, hr⟩ := h
+  obtain ⟨ks, B, hi, _⟩ := run_refines ops (init_inv hash) hr
+  exact ⟨ks, B, hi⟩
+
+/-! ### facts about the specification used by the property theorems -/
+
+/-- `reset` / `resetMaster` -/
+def Op.isReset : Op κ → Bool
+  | .reset => true
+  | .resetMaster => true
+  | _ => false
+
+theorem spec_step_prefix {P l l' : List κ} {op : Op κ} (h : Spec.step P l op = some l')
+    (hr : op.isReset = false) : ∃ r, l' = l ++ r := by
+  cases op with
+  | add t =>
+    simp only [Spec.step, Option.some.injEq] at h
+    subst h
+    unfold Spec.add
+    split
+    · exact ⟨[], by simp⟩
+    · exact ⟨[t], rfl⟩
+  | get t => simp only [Spec.step, Option.some.injEq] at h; subst h; exact ⟨[], by simp⟩
+  | str i =>
+    simp only [Spec.step] at h
+    split at h
+    · simp only [Option.some.injEq] at h; subst h; exact ⟨[], by simp⟩
+    · cases h
+  | more n => simp only [Spec.step, Option.some.injEq] at h; subst h; exact ⟨[], by simp⟩
+  | reset => simp [Op.isReset] at hr
+  | resetMaster => simp [Op.isReset] at hr
+
+theorem spec_run_prefix {P : List κ} : ∀ (ops : List (Op κ)) {l l' : List κ}, Spec.run P l ops = some l' →
+    (∀ op ∈ ops, op.isReset = false) → ∃ r, l' = l ++ r
+  | [], l, l', h, _ => by
+    simp only [Spec.run, Option.some.injEq] at h; subst h; exact ⟨[], by simp⟩
+  | op :: ops, l, l', h, hr => by
+    simp only [Spec.run, Option.bind_eq_some_iff] at h
+    obtain ⟨l1, h1, h2⟩ := h
+    obtain ⟨r1, e1⟩ := spec_step_prefix h1 (hr op (by simp))
+    obtain ⟨r2, e2⟩ := spec_run_prefix ops h2 (fun o ho => hr o (by simp [ho]))
+    exact ⟨r1 ++ r2, by rw [e2, e1, List.append_assoc]⟩
+
+theorem spec_textOf_append {l r : List κ} {i : Nat} {t : κ} (h : Spec.textOf l i = some t) :
+    Spec.textOf (l ++ r) i = some t := by
+  have hr := keyAt_some_range h
+  unfold Spec.textOf at h ⊢
+  rw [if_neg (by omega)] at h ⊢
+  rw [List.getElem?_append_left (by omega)]
+  exact h
+
+theorem spec_foldl_add_nodup : ∀ (P l : List κ), (l ++ P).Nodup → P.foldl Spec.add l = l ++ P
+  | [], l, _ => by simp
+  | t :: P, l, h => by
+    have hnm : t ∉ l := by
+      intro hm
+      rw [List.nodup_append] at h
+      exact h.2.2 t hm t (by simp) rfl
+    have : Spec.add l t = l ++ [t] := by simp [Spec.add, hnm]
+    rw [List.foldl_cons, this, spec_foldl_add_nodup P (l ++ [t]) (by simpa using h)]
+    simp
+
+theorem spec_mem_add {l : List κ} {t x : κ} : x ∈ Spec.add l t ↔ x ∈ l ∨ x = t := by
+  unfold Spec.add
+  split
+  · rename_i hm
+    constructor
+    · exact Or.inl
+    · rintro (h | h)
+      · exact h
+      · subst h; exact hm
+  · simp
+
+theorem spec_mem_foldl_add : ∀ (P l : List κ) (x : κ), x ∈ P.foldl Spec.add l ↔ x ∈ l ∨ x ∈ P
+  | [], l, x => by simp
+  | t :: P, l, x => by
+    rw [List.foldl_cons, spec_mem_foldl_add P _ x, spec_mem_add]
+    simp only [List.mem_cons]
+    constructor
+    · rintro ((h | h) | h)
+      · exact Or.inl h
+      · exact Or.inr (Or.inl h)
+      · exact Or.inr (Or.inr h)
+    · rintro (h | h | h)
+      · exact Or.inl (Or.inl h)
+      · exact Or.inl (Or.inr h)
+      · exact Or.inr h
+
+/-- a text enters the dictionary only through `add t` or the predefined list -/
+theorem spec_run_not_mem {P : List κ} {t : κ} (hP : t ∉ P) : ∀ (ops : List (Op κ)) {l l' : List κ},
+    Spec.run P l ops = some l' → t ∉ l → (∀ op ∈ ops, op ≠ Op.add t) → t ∉ l'
+  | [], l, l', h, hl, _ => by
+    simp only [Spec.run, Option.some.injEq] at h; subst h; exact hl
+  | op :: ops, l, l', h, hl, hne => by
+    simp only [Spec.run, Option.bind_eq_some_iff] at h
+    obtain ⟨l1, h1, h2⟩ := h
+    refine spec_run_not_mem hP ops h2 ?_ (fun o ho => hne o (by simp [ho]))
+    cases op with
+    | add u =>
+      simp only [Spec.step, Option.some.injEq] at h1
+      subst h1
+      rw [spec_mem_add]
+      rintro (h | h)
+      · exact hl h
+      · exact hne (Op.add u) (by simp) (by rw [h])
+    | get u => simp only [Spec.step, Option.some.injEq] at h1; subst h1; exact hl
+    | str i =>
+      simp only [Spec.step] at h1
+      split at h1
+      · simp only [Option.some.injEq] at h1; subst h1; exact hl
+      · cases h1
+    | more n => simp only [Spec.step, Option.some.injEq] at h1; subst h1; exact hl
+    | reset => simp only [Spec.step, Option.some.injEq] at h1; subst h1; simp
+    | resetMaster =>
+      simp only [Spec.step, Option.some.injEq] at h1
+      subst h1
+      rw [spec_mem_foldl_add]
+      simp [hP]
+
+theorem spec_add_length_le (l : List κ) (t : κ) : (Spec.add l t).length ≤ l.length + 1 := by
+  unfold Spec.add; split <;> simp
+
+/-- with room for all of them, interning a list of texts never rehashes and never fails -/
+theorem addAll_defined {hash : κ → Nat} {primes : List Nat} : ∀ (ts : List κ) {s : State κ} {ks : List κ}
+    {B : Nat → List Nat}, Inv hash s ks B → s.count + ts.length ≤ s.tableLength →
+    ∃ s', addAll hash primes s ts = some s'
+  | [], s, _, _, _, _ => ⟨s, rfl⟩
+  | t :: ts, s, ks, B, h, hroom => by
+    simp only [List.length_cons] at hroom
+    obtain ⟨⟨s1, i⟩, hr⟩ := add_defined (primes := primes) h t (Or.inr (Or.inl (by omega)))
+    obtain ⟨⟨B1, h1⟩, _, htl, _⟩ := add_refines h hr
+    have hc : s1.count ≤ s.count + 1 := by
+      rw [h1.count_eq, h.count_eq]; exact spec_add_length_le ks t
+    obtain ⟨s', hs'⟩ := addAll_defined (primes := primes) ts h1 (by omega)
+    exact ⟨s', by unfold addAll; rw [hr]; exact hs'⟩
 
 end Morfuse.Dict
